@@ -307,7 +307,12 @@ func cmdRun(args []string) {
 	outDir := fs.String("outdir", "", "directory for hash-set files")
 	cold := fs.Bool("cold", false, "short-lived process: bias the first runs towards contention")
 	knownPath := fs.String("known", "", "known_findings.json: listed violations are reported once and do not stop the search")
+	progress := fs.String("progress", "", "file that always holds the index of the run in progress (read by the orchestrator if this process dies of a fatal runtime error)")
 	fs.Parse(args)
+	var progFile *os.File
+	if *progress != "" {
+		progFile, _ = os.Create(*progress)
+	}
 	type knownT struct {
 		Property, Class, Match string
 	}
@@ -372,6 +377,9 @@ func cmdRun(args []string) {
 		}
 		s := mixSeed(*seed, uint64(*wk), uint64(i))
 		p := genPlanOpt(s, *prop, *cold)
+		if progFile != nil {
+			progFile.WriteAt([]byte(fmt.Sprintf("%019d\n", i)), 0)
+		}
 		cover := i%8 == 0
 		res, viol := evalRun(p, int(i), false, cover)
 		st.Runs++
